@@ -102,7 +102,12 @@ def _validate(ctx, results):
     out = []
 
     def one(r):
-        return r, ctx.validate(r[0], module='OffsetTrace', heap='3g')
+        for attempt in range(3):
+            try:
+                return r, ctx.validate(r[0], module='OffsetTrace', heap='3g')
+            except common.Machinery as e:  # JVM killed from outside (see _model)
+                if '(rc=-9)' not in str(e) or attempt == 2:
+                    raise
 
     with cf.ThreadPoolExecutor(max_workers=min(6, max(1, len(results)))) as ex:
         for r in ex.map(one, [r for r in results if r[0]['traces']]):
@@ -149,12 +154,23 @@ def _collect(ctx, validated):
     return n
 
 
+def _model(ctx, module, cfg, **kw):
+    """ctx.model with two retries when the JVM was killed from outside (SIGKILL, e.g. the kernel's OOM killer on a crowded
+    host): that is neither a verdict nor a property of the specification."""
+    for attempt in range(3):
+        try:
+            return ctx.model(module, cfg, **kw)
+        except common.Machinery as e:
+            if '(rc=-9)' not in str(e) or attempt == 2:
+                raise
+
+
 def _gen_rows(ctx, cfg):
     """Run OffsetGen (TLC) and read the emitted instance table."""
     path = os.path.join(tlc.scratch(), f'c11-{cfg}.json')
     os.environ['C11_OUT'] = path
     try:
-        ctx.model('OffsetGen', cfg, workers=1, coverage=False, heap='4g')
+        _model(ctx, 'OffsetGen', cfg, workers=1, coverage=False, heap='4g')
     finally:
         os.environ.pop('C11_OUT', None)
     try:
@@ -213,11 +229,14 @@ def run(ctx):
         'f-string internals excluded; decorators are not modelled in Offset.tla (covered by V only)',
     ]
     # ---- M
-    if ctx.quick:
-        ctx.model('OffsetMC', 'OffsetMC', required=ACTIONS, heap='3g')
+    phases = os.environ.get('C11_PHASES', 'MGV')  # development switch (mutant screening on a crowded host); default = all
+    if 'M' not in phases:
+        ctx.assumptions.append('M phase skipped by C11_PHASES')
+    elif ctx.quick:
+        _model(ctx, 'OffsetMC', 'OffsetMC', required=ACTIONS, heap='3g')
     else:
-        ctx.model('OffsetMC', 'OffsetMC_thorough', required=ACTIONS, timeout=1500, heap='6g')
-        ctx.model('OffsetMC', 'OffsetMC_n5', required=ACTIONS, timeout=3000, heap='6g')
+        _model(ctx, 'OffsetMC', 'OffsetMC_thorough', required=ACTIONS, timeout=2400, heap='6g')
+        _model(ctx, 'OffsetMC', 'OffsetMC_n5', required=ACTIONS, timeout=3000, heap='6g')
     # ---- G
     rows = _gen_rows(ctx, 'OffsetGen' if ctx.quick else 'OffsetGen_thorough')
     cases, total = _g_cases(ctx, rows, 5000 if ctx.quick else 120000)
